@@ -218,3 +218,6 @@ Definition duration_bound (tbl : list (text * score)) (o : op) : Q :=
       | None => 0
       end
   end%Q.
+
+(* ---- calls that emit no code at all: beep with trunc(times) < 1, melody without (or with an empty) score *)
+Definition noop_call (tbl : list (text * score)) (o : op) : bool := timed o && negb (silent_guard tbl o).
